@@ -78,13 +78,17 @@ def given_weights_guard(prog, rep, RID, cname, sol_key):
         raise AnalysisError(f"{cname}.solve: adoption site of the given-weights model not found")
 
 
+def run(prog: Program, rep, pid: str, cls: str, sol_key: str, allow_log2: bool, r3_floor: int):
+    rep.rule(f"{pid}.R1", f"search protocol of {cls}.solve", floor=6)
+    k_loop_protocol(prog, rep, f"{pid}.R1", cls, "solve", {"self.get_lowerbound_k()"})
+    given_weights_guard(prog, rep, f"{pid}.R1", cls, sol_key)
+    rep.rule(f"{pid}.R2", "k-range reaches the largest attainable optimum", floor=1)
+    range_rule(prog, rep, f"{pid}.R2", cls, "solve")
+    rep.rule(f"{pid}.R3", "lower-bound composition", floor=r3_floor)
+    lowerbound_rule(prog, rep, f"{pid}.R3", cls, allow_log2=allow_log2)
+    rep.rule(f"{pid}.R4", "no process exit in library code", floor=1)
+    no_process_exit(prog, rep, f"{pid}.R4")
+
+
 def check(prog: Program, rep):
-    rep.rule("C03.R1", "search protocol of MinFlowDecomp.solve", floor=6)
-    k_loop_protocol(prog, rep, "C03.R1", CLS, "solve", {"self.get_lowerbound_k()"})
-    given_weights_guard(prog, rep, "C03.R1", CLS, SOL_KEY)
-    rep.rule("C03.R2", "k-range reaches the largest attainable optimum", floor=1)
-    range_rule(prog, rep, "C03.R2", CLS, "solve")
-    rep.rule("C03.R3", "lower-bound composition", floor=5)
-    lowerbound_rule(prog, rep, "C03.R3", CLS, allow_log2=True)
-    rep.rule("C03.R4", "no process exit in library code", floor=1)
-    no_process_exit(prog, rep, "C03.R4")
+    run(prog, rep, "C03", CLS, SOL_KEY, True, 5)
